@@ -30,60 +30,60 @@ type SymPtr struct { // address of slice[idx] with symbolic idx
 }
 
 type undo struct {
-	p   *value
-	old value
-	mp  *MapV
-	key any
-	had bool
+	p    *value
+	old  value
+	mp   *MapV
+	key  any
+	had  bool
 	kind uint8 // 0 cell, 1 map entry, 2 map nil flag, 4 lock counter
 	held int   // number of mutexes held when the write happened
 }
 
 type frame struct {
-	fn     *ssa.Function
-	env    map[ssa.Value]value
-	block  *ssa.BasicBlock
-	prev   *ssa.BasicBlock
-	defers []func()
-	depth  int
-	result value
-	done   bool
+	fn       *ssa.Function
+	env      map[ssa.Value]value
+	block    *ssa.BasicBlock
+	prev     *ssa.BasicBlock
+	defers   []func()
+	depth    int
+	result   value
+	done     bool
 	skipPhis bool
 }
 
 type Machine struct {
-	prog    *ssa.Program
-	tb      *TermBank
-	sol     *Solver
-	globals map[*ssa.Global]*value
-	trail   []undo
-	fresh   map[*value]int // allocation serial while a merge region is active
-	freshOn int
-	serial  int
-	ex      *Explorer
-	steps   int64
-	maxSteps int64
-	depth   int
-	funcsSeen map[*ssa.Function]bool
-	unit    *Unit
-	pdom    map[*ssa.Function]map[*ssa.BasicBlock]*ssa.BasicBlock
-	noMerge bool
+	prog       *ssa.Program
+	tb         *TermBank
+	sol        *Solver
+	globals    map[*ssa.Global]*value
+	trail      []undo
+	fresh      map[*value]int // allocation serial while a merge region is active
+	freshOn    int
+	serial     int
+	ex         *Explorer
+	steps      int64
+	maxSteps   int64
+	depth      int
+	funcsSeen  map[*ssa.Function]bool
+	unit       *Unit
+	pdom       map[*ssa.Function]map[*ssa.BasicBlock]*ssa.BasicBlock
+	noMerge    bool
 	mergeLoops bool
-	deadline time.Time
+	deadline   time.Time
 	skipTables bool
 	apxFloats  bool
 	apxSeq     int
-	inPerAlt bool
-	inHook   bool
-	freshMaps map[*MapV]int
-	locksHeld int
-	logWrites int
-	writeLog  []int
-	liftGuard *Term
-	extern  map[string]externFn
-	varSeq  map[string]int
-	now     time.Time
-	loopCount map[*ssa.BasicBlock]int
+	inPerAlt   bool
+	inHook     bool
+	freshMaps  map[*MapV]int
+	locksHeld  int
+	logWrites  int
+	writeLog   []int
+	liftGuard  *Term
+	extern     map[string]externFn
+	varSeq     map[string]int
+	now        time.Time
+	loopCount  map[*ssa.BasicBlock]int
 }
 
 func (m *Machine) store(p *value, v value) {
